@@ -92,6 +92,11 @@ def run(ctx):
         ob('R17.2').run(fpt, 'parse_transform(%r)' % text,
                         lambda it, text=text: it.call(it.closure_of('parser.parse_transform'), [text], {}),
                         lambda v: arr_equal(v, exp_list), opts=fhook)
+    # the SVG grammar allows white space between the name and the parenthesis, and inside the parentheses
+    for text in ('translate (v0,v1) rotate\t(v2) scale  (v3)', 'translate( v0 , v1 ) rotate( v2 ) scale( v3 )'):
+        ob('R17.2').run(fpt, 'parse_transform(%r)' % text,
+                        lambda it, text=text: it.call(it.closure_of('parser.parse_transform'), [text], {}),
+                        lambda v: arr_equal(v, exp_list), opts=fhook)
     ob('R17.2').run(fpt, 'parse_transform(None / empty) is the identity',
                     lambda it: (it.call(it.closure_of('parser.parse_transform'), [None], {}), it.call(it.closure_of('parser.parse_transform'), [''], {})),
                     lambda v: (arr_equal(v[0], ident())[0] is True and arr_equal(v[1], ident())[0] is True, 'not the identity'))
